@@ -28,6 +28,8 @@ enum ROp {
     Revoke(Vec<String>),
     Refresh(String),
     Persist,
+    /// `RevocationRegistry::add` called directly on the issuer's public registry field
+    Add(Vec<String>),
 }
 
 impl ROp {
@@ -40,6 +42,7 @@ impl ROp {
             ROp::Revoke(v) => format!("revoke [{}]", v.join(",")),
             ROp::Refresh(i) => format!("refresh {}", i),
             ROp::Persist => "persist/restore".into(),
+            ROp::Add(v) => format!("registry.add [{}]", v.join(",")),
         }
     }
     fn model_line(&self) -> String {
@@ -49,6 +52,7 @@ impl ROp {
             ROp::Revoke(v) => format!("reg.revoke {}", if v.is_empty() { "-".into() } else { v.join(",") }),
             ROp::Refresh(i) => format!("reg.refresh {}", i),
             ROp::Persist => "reg.persist".into(),
+            ROp::Add(v) => format!("reg.add {}", if v.is_empty() { "-".into() } else { v.join(",") }),
         }
     }
 }
@@ -106,6 +110,10 @@ fn apply<S: ShortGroupSignatureScheme>(em: &mut Emitter, suite: &str, c: &mut Ct
             c.issuer.revoke_credentials(&v).map(|_| None)
         }),
         ROp::Refresh(id) => call(|| c.issuer.update_revocation_handle(RevocationClaim::from(id.as_str())).map(Some)),
+        ROp::Add(ids) => call(|| {
+            c.issuer.revocation_registry.add(ids);
+            Ok::<_, ()>(None)
+        }),
         ROp::Persist => call(|| {
             let j = serde_json::to_string(&c.issuer).map_err(|_| ())?;
             let back: Issuer<S> = serde_json::from_str(&j).map_err(|_| ())?;
@@ -147,7 +155,7 @@ fn apply<S: ShortGroupSignatureScheme>(em: &mut Emitter, suite: &str, c: &mut Ct
                 ROp::SignBad(_) | ROp::BlindBad(_) => true,
                 ROp::Revoke(ids) => ids.iter().any(|i| !c.issued.contains(i) || c.revoked.contains(i)) || ids.iter().collect::<BTreeSet<_>>().len() != ids.len(),
                 ROp::Refresh(id) => !c.issued.contains(id) || c.revoked.contains(id),
-                ROp::Persist => false,
+                ROp::Persist | ROp::Add(_) => false,
             };
             if !should_fail {
                 em.violation("spurious-error", format!("{} returned Err although it is admissible", op.show()), replay.clone());
@@ -176,6 +184,12 @@ fn apply<S: ShortGroupSignatureScheme>(em: &mut Emitter, suite: &str, c: &mut Ct
                     }
                 }
                 ROp::Persist => {}
+                ROp::Add(ids) => {
+                    // never-seen identifiers become issued (and active); known ones, active or revoked, are left alone
+                    for i in ids {
+                        c.issued.insert(i.clone());
+                    }
+                }
             }
             if let Some(w) = w {
                 let id = match op {
@@ -439,7 +453,12 @@ pub fn gen_c13_suite<S: ShortGroupSignatureScheme>(em: &mut Emitter, rng: &mut R
     let (public, c) = start::<S>(em);
     dfs(em, suite, &c, &public, depth, &ops);
     em.count_n(&format!("{}:exhaustive-depth", suite), depth as u64);
-    // random longer histories
+    // random longer histories (also with direct `RevocationRegistry::add` calls on the public registry field)
+    let mut ops = ops;
+    let s = |x: &str| x.to_string();
+    ops.push(ROp::Add(vec![s("a"), s("b")]));
+    ops.push(ROp::Add(vec![s("c"), s("a"), s("c")]));
+    ops.push(ROp::Add(vec![s("b")]));
     for _ in 0..em.n(25, 400) {
         let (public, mut c) = start::<S>(em);
         let len = 4 + rng.below(if em.thorough() { 27 } else { 12 }) as usize;
